@@ -160,6 +160,22 @@ check('C13', 'model_checking',
       'replayed through the real reader, judged by TLC',
       'tlc-data')
 
+check('C19', 'model_checking',
+      'GenInput.tla defines the requested grid (sizes x bias ratios x rates), '
+      'the inclusive arithmetic progression on a decimal grid and the bias '
+      'direction as exact rationals; GenInput_Model.tla checks them (sum to '
+      'one, inclusive, nothing beyond max) over the enumerated argument '
+      'combinations and emits these; each is run through the real '
+      'generate-input command, every specification written is read back by '
+      'the simulator and TLC (C19_Data.tla) judges the union against '
+      'Requested: nothing missing, duplicated or outside, one specification '
+      'per bias ratio.',
+      'DESIGN.md 4/C19',
+      'Trusted: TLC; floats matched to the rationals of the spec within 1e-9.',
+      'TLA+ grid/rational model checked + TLC-enumerated CLI invocations '
+      'replayed through the real command and judged by TLC',
+      'tlc-data')
+
 
 def build():
     checks = []
